@@ -91,3 +91,19 @@ fn c10_dearmor_crc_decision() {
 fn c10_dearmor_crc_decision_b() {
     crc_decision(b"SGVsbG8h", b"Hello!")
 }
+
+/// the options builder: every combination and order of enable_crc24_check / set_limit keeps both settings
+/// ("when CRC checking is enabled it accepts exactly those inputs whose checksum matches" presupposes that
+/// enabling it is not lost on the way)
+vproof!(c10_dearmor_options_builder, 4, {
+    let n: usize = kani::any();
+    let m: usize = kani::any();
+    let a = DearmorOptions::new().enable_crc24_check().set_limit(n);
+    assert!(a.crc24_check && a.limit == n, "C10: DearmorOptions: set_limit after enable_crc24_check loses a setting");
+    let b = DearmorOptions::new().set_limit(n).enable_crc24_check();
+    assert!(b.crc24_check && b.limit == n, "C10: DearmorOptions: enable_crc24_check after set_limit loses a setting");
+    let c = DearmorOptions::new().set_limit(n).set_limit(m);
+    assert!(!c.crc24_check && c.limit == m, "C10: DearmorOptions: CRC checking on without being asked for, or limit not the last one set");
+    let d = DearmorOptions::default();
+    assert!(!d.crc24_check, "C10: CRC checking must be off by default (RFC 9580 6.1)");
+});
